@@ -3,7 +3,7 @@
    alg/sha256.c (Alg.HashRepo); the spec with the hash area's SPEC (RFC 2104 over FIPS 180-4).
    These are the functions that are extracted and run against the compiled C.  Definitions only. *)
 From Coq Require Import NArith List.
-From LCP Require Import Base.CheckedMem Gen.Repo_dhdrbg Alg.HashRepo Alg.HashSpecs Crypto.DrbgSpec Crypto.DrbgModel.
+From LCP Require Import Base.CheckedMem Gen.Repo_dhdrbg Alg.HashRepo Alg.HashSpecs Crypto.DrbgSpec Crypto.DrbgOsSpec Crypto.DrbgModel Crypto.DrbgOsModel.
 Import ListNotations.
 
 Definition drbg_h_final (c : hctx256) : list N := fst (hmac256_final c).
@@ -13,3 +13,13 @@ Definition drbg_run (reqs : list N) (o : oracle) :=
 
 Definition drbg_spec_run (reqs : list N) (o : oracle) :=
   spec_run HMAC_SHA256_spec reqs None o.
+
+(* the same over the model of util/entropy.c's entropy_read() and a script of open/read/close
+   answers, one session per entropy_read() call: what runs against the C built with the real
+   util/entropy.c and interposed system calls *)
+Definition drbg_os_run (reqs : list N) (ss : os_oracle) :=
+  run_os repo_drbg_params hctx256 hmac256_init hmac256_update drbg_h_final hmac256_buf reqs dstate0 ss.
+
+(* the spec fed with what the sessions delivered (DrbgOsSpec.v) *)
+Definition drbg_os_spec_run (reqs : list N) (ss : list session) :=
+  spec_run HMAC_SHA256_spec reqs None (spec_resolve false ss).
